@@ -15,8 +15,91 @@ PROPS = "PropsC13.v"
 PROOF_AREA = "coreproofs"
 
 
+# Model._create_cache, statement for statement (ast-normalised: docstring and comments dropped), as modelled in
+# coq/core/Cache.v.  Any edit of the cache construction flips the regenerated fact and breaks C13_cache_shape_pinned.
+_CREATE_CACHE_SHAPE = """parameter_names = set(self._parameters)
+all_parameter_names = set(parameter_names)
+base_parameter_values: dict[str, float] = {k: val for k, v in self._parameters.items() if not isinstance((val := v.value), InitialAssignment)}
+base_variable_values: dict[str, float] = {k: init for k, v in self._variables.items() if not isinstance((init := v.initial_value), InitialAssignment)}
+initial_assignments: dict[str, InitialAssignment] = {k: init for k, v in self._variables.items() if isinstance((init := v.initial_value), InitialAssignment)} | {k: init for k, v in self._parameters.items() if isinstance((init := v.value), InitialAssignment)}
+for name, el in it.chain(initial_assignments.items(), self._derived.items(), self._reactions.items(), self._readouts.items()):
+    if not _check_function_arity(el.fn, len(el.args)):
+        raise ArityMismatchError(name, el.fn, el.args)
+available = set(base_parameter_values) | set(base_variable_values) | set(self._data) | {'time'}
+to_sort = initial_assignments | self._derived | self._reactions | self._surrogates
+order = _sort_dependencies(available=available, elements=[Dependency(name=k, required=set(v.args), provided={k}) if not isinstance(v, AbstractSurrogate) else Dependency(name=k, required=set(v.args), provided=set(v.outputs)) for k, v in to_sort.items()])
+dependent = base_parameter_values | base_variable_values | self._data | {'time': 0.0}
+for name in order:
+    to_sort[name].calculate_inpl(name, dependent)
+static_order = []
+dyn_order = []
+for name in order:
+    if name in self._reactions or name in self._surrogates:
+        dyn_order.append(name)
+    elif name in self._variables or name in self._parameters:
+        static_order.append(name)
+    else:
+        derived = self._derived[name]
+        if all((i in all_parameter_names for i in derived.args)):
+            static_order.append(name)
+            all_parameter_names.add(name)
+        else:
+            dyn_order.append(name)
+stoich_by_compounds: dict[str, dict[str, float]] = {}
+dyn_stoich_by_compounds: dict[str, dict[str, Derived]] = {}
+for rxn_name, rxn in self._reactions.items():
+    for cpd_name, factor in rxn.stoichiometry.items():
+        d_static = stoich_by_compounds.setdefault(cpd_name, {})
+        if isinstance(factor, Derived):
+            if all((i in all_parameter_names for i in factor.args)):
+                d_static[rxn_name] = factor.calculate(dependent)
+            else:
+                dyn_stoich_by_compounds.setdefault(cpd_name, {})[rxn_name] = factor
+        else:
+            d_static[rxn_name] = factor
+for surrogate in self._surrogates.values():
+    for rxn_name, rxn in surrogate.stoichiometries.items():
+        for cpd_name, factor in rxn.items():
+            d_static = stoich_by_compounds.setdefault(cpd_name, {})
+            if isinstance(factor, Derived):
+                if all((i in all_parameter_names for i in factor.args)):
+                    d_static[rxn_name] = factor.calculate(dependent)
+                else:
+                    dyn_stoich_by_compounds.setdefault(cpd_name, {})[rxn_name] = factor
+            else:
+                d_static[rxn_name] = factor
+var_names = self.get_variable_names()
+initial_conditions: dict[str, float] = {k: cast(float, dependent[k]) for k in self._variables}
+all_parameter_values = dict(base_parameter_values)
+for name in static_order:
+    if name in self._variables:
+        continue
+    if name in self._parameters or name in self._derived:
+        all_parameter_values[name] = cast(float, dependent[name])
+    else:
+        msg = 'Unknown target for static derived variable.'
+        raise KeyError(msg)
+self._cache = ModelCache(order=order, var_names=var_names, dyn_order=dyn_order, base_parameter_values=base_parameter_values, all_parameter_values=all_parameter_values, stoich_by_cpds=stoich_by_compounds, dyn_stoich_by_cpds=dyn_stoich_by_compounds, initial_conditions=initial_conditions)
+return self._cache"""
+
+
+def extract_cache_shape() -> str:
+    import ast
+
+    tree = ast.parse((common.REPO / "src/mxlpy/model.py").read_text())
+    return "true" if c01._method_body(tree, "Model", "_create_cache") == _CREATE_CACHE_SHAPE else "false"
+
+
 def gen() -> dict:
-    return c01.gen()
+    f = dict(c01.gen())
+    f["create_cache_shape"] = extract_cache_shape()
+    text = (
+        "(* REGENERATED from src/mxlpy/model.py (Model._create_cache) by harness/c13.py; do not edit.\n"
+        "   true = the method body is statement-for-statement the one modelled in Cache.v *)\n"
+        f"Definition gen_cache_shape : bool := {f['create_cache_shape']}.\n"
+    )
+    common.write_if_changed(common.area_dir(AREA) / "GenCacheFacts.v", text)
+    return f
 
 
 def observe13(m, desc) -> dict:
